@@ -52,6 +52,9 @@ var (
 	bhash   = common.BytesToHash([]byte("block"))
 	tkey    = common.BytesToHash([]byte("transient-key"))
 	aslot   = common.BytesToHash([]byte("access-slot"))
+	sskey   = common.BytesToHash([]byte("evm-word-slot"))
+	ftName  = "verif-ft" // a fungible token other than the native one: own-storage slot until a binding is registered
+	ftBound = common.HexToAddress("0x3333333333333333333333333333333333333333")
 
 	disk     *db.MemDatabase
 	adb      account.AccountDatabase
@@ -134,6 +137,7 @@ func buildStarts() {
 			st.SetData(addrs[1], skeys[2], svals[2])
 			st.SetBalance(addrs[1], big.NewInt(9))
 			st.SetData(addrs[2], skeys[1], svals[1])
+			st.SetFT(addrs[1], ftName, big.NewInt(4))
 		}
 		root, err := st.Commit(false)
 		if err != nil {
@@ -216,6 +220,18 @@ func (u *subject) apply(c call) (r result) {
 		s.SubBalance(addrs[c.A], big.NewInt(int64(c.X)))
 	case "TB":
 		s.SetBalance(addrs[c.A], big.NewInt(int64(c.X)))
+	case "SS":
+		s.SetState(addrs[c.A], sskey, common.BigToHash(big.NewInt(int64(c.X))))
+	case "TR":
+		s.Transfer(addrs[c.A], addrs[c.Y], big.NewInt(int64(c.X)))
+	case "AF":
+		s.AddFT(addrs[c.A], ftName, big.NewInt(int64(c.X)))
+	case "SF":
+		s.SubFT(addrs[c.A], ftName, big.NewInt(int64(c.X)))
+	case "TF":
+		s.SetFT(addrs[c.A], ftName, big.NewInt(int64(c.X)))
+	case "BI":
+		s.AddERC20Binding(ftName, ftBound, 5, 18)
 	case "CA":
 		s.CreateAccount(addrs[c.A])
 	case "SU":
@@ -263,7 +279,12 @@ func replay(start int, ops []call) *subject {
 
 // project reads the whole observable state through the exported queries.
 func project(u *subject) (st map[string]interface{}) {
-	st = map[string]interface{}{"panic": ""}
+	blank := func() map[string]interface{} {
+		return map[string]interface{}{"ex": false, "empty": false, "nonce": -1, "code": unknown, "csize": -1, "chash": unknown,
+			"st": make([]int, nKeys), "sui": false, "bal": "?", "ss": unknown, "ssC": unknown, "canT": false, "ft": "?"}
+	}
+	st = map[string]interface{}{"panic": "", "acct": []interface{}{blank(), blank()}, "refund": -1, "logs": []int{0, 0}, "logIdx": []int{},
+		"accA": []bool{false, false}, "accS": []bool{false, false}, "tr": []int{unknown, unknown}, "bind": []interface{}{false, unknown}, "bindEx": false}
 	defer func() {
 		if p := recover(); p != nil {
 			st["panic"] = fmt.Sprint(p)
@@ -288,9 +309,14 @@ func project(u *subject) (st map[string]interface{}) {
 			"st":    slots,
 			"sui":   s.HasSuicided(ad),
 			"bal":   s.GetBalance(ad).String(),
+			"ss":    hashID(s.GetState(ad, sskey)),
+			"ssC":   hashID(s.GetCommittedState(ad, sskey)),
+			"canT":  s.CanTransfer(ad, big.NewInt(1)),
+			"ft":    "",
 		})
 	}
 	st["acct"] = accts
+
 	st["refund"] = int(s.GetRefund())
 	nlogs := make([]int, 2)
 	idx := make([]int, 0)
@@ -310,6 +336,30 @@ func project(u *subject) (st map[string]interface{}) {
 		tr[a-1] = hashID(s.GetTransientState(addrs[a], tkey))
 	}
 	st["accA"], st["accS"], st["tr"] = accA, accS, tr
+	// token-level queries last: GetFT of an unbound name creates the holder's account object
+	found, contract, _, _ := s.GetERC20Binding(ftName)
+	cid := 0
+	if found {
+		cid = unknown
+		if contract == ftBound {
+			cid = 1
+		}
+	}
+	st["bind"] = []interface{}{found, cid}
+	st["bindEx"] = s.Exist(common.GenerateERC20Binding(ftName))
+	for a := 1; a <= nAcct; a++ {
+		// GetFT dereferences a nil object when the holder was deleted by Finalise earlier on this
+		// AccountDB (getOrNewAccountObject returns nil for deleted objects): that is what the query
+		// "answers" then, at snapshot time and after the revert alike
+		accts[a-1].(map[string]interface{})["ft"] = func() (v string) {
+			defer func() {
+				if recover() != nil {
+					v = "panic"
+				}
+			}()
+			return s.GetFT(addrs[a], ftName).String()
+		}()
+	}
 	return st
 }
 
